@@ -125,6 +125,14 @@ GroupVerdicts(k) ==
                        cnt(c) == Cardinality({j \in f..k : ref(j) = c})
                    IN IF cnt("?") = 0 /\ C18FreqOK(o.case.group.strategy, cnt("c1"), cnt("c2"), cnt("c3"), k - f + 1)
                       THEN {} ELSE {Fail("C18", "reference-strategy-frequencies", "")})
+          ELSE IF rel = "shuffle" THEN
+             (* the group's requests differ in the heuristic's seed only and ask for a seeded-random order on an instance  *)
+             (* whose ranking shows the walk order: over 24 seeds the order cannot always be the same                    *)
+             (IF ~IsGroupLast(k) THEN {}
+              ELSE LET seqOf(j) == IF Trace[j].status = 200
+                                   THEN [i \in DOMAIN Trace[j].resp.result |-> Trace[j].resp.result[i].alternative.id] ELSE <<>>
+                   IN IF Cardinality({seqOf(j) : j \in f..k}) >= 2 THEN {}
+                      ELSE {Fail(o.case.group.p, "seeded-random-order-never-differs", "")})
           ELSE IF rel = "samereq" THEN
              (IF \A j \in f..(k - 1) : Trace[j].case.reqkey = o.case.reqkey => (Trace[j].status = o.status /\ Trace[j].resp = o.resp)
               THEN {} ELSE {Fail(o.case.group.p, "history-dependent", "")})
